@@ -220,14 +220,19 @@ class NumpyCodegenMapper(CachedMapper[str, Never, []]):
             if isinstance(e, Array):
                 return ast.Name(self.rec(e))
             else:
-                if np.isnan(e):
+                if not np.isfinite(e):
                     e_np = np.array(e)
-                    # generates code like: `np.float64("nan")`.
+                    # generates code like: `np.float64("nan")`, `np.float32("-inf")`
+                    # (the repr of a non-finite scalar is not an expression).
                     return ast.Call(
                         func=ast.Attribute(value=ast.Name(self.numpy),
                                            attr=cast("str", e_np.dtype.name)),
-                        args=[_constant(value="nan")],
+                        args=[_constant(value=str(e_np.item()))],
                         keywords=[])
+                elif not isinstance(e, complex | np.complexfloating) and e < 0:
+                    # `-2 ** x` is `-(2 ** x)`: negate explicitly, so that the
+                    # operand is parenthesized where the precedence demands it
+                    return ast.UnaryOp(ast.USub(), _constant(-e))
                 else:
                     return _constant(e)
 
